@@ -1331,6 +1331,127 @@ func (c *Ctx) beforeHandledHonoured(rule string) {
 	r.Check(n >= 10, rule, "all packages", "FireBefore sites", "-", sprintf("%d", n), sprintf("expected at least 10 FireBefore sites, found %d", n))
 }
 
+// afterHandlersUnconditional: the bookkeeping the library hangs on After
+// events (reset the failure count, stamp the idle clock, revoke remember
+// tokens, issue the remember cookie, start a confirmation) happens whether or
+// not an earlier handler already answered the request: none of the library's
+// After handlers reads the incoming `handled` flag. (Before handlers of the
+// hijack kind do: a login that was already taken over is not taken over again.)
+func (c *Ctx) afterHandlersUnconditional(rule string) {
+	r := c.R
+	n := 0
+	seen := map[*ssa.Function]bool{}
+	for _, w := range c.wiring {
+		if w.Before || w.Handler == nil || seen[w.Handler] || strings.HasSuffix(pkgOf(w.In), "/mocks") || !c.inRepo(w.Handler) {
+			continue
+		}
+		seen[w.Handler] = true
+		h := w.Handler
+		if len(h.Params) == 0 {
+			continue
+		}
+		hp := h.Params[len(h.Params)-1]
+		if !isBoolType(hp.Type()) {
+			continue
+		}
+		n++
+		used := hp.Referrers() != nil && len(*hp.Referrers()) > 0
+		r.Check(!used, rule, FuncName(h), "After("+c.EventName(w.Event)+") handler ignores handled", c.P.Pos(h.Pos()), "bookkeeping does not depend on whether an earlier handler answered", "the After handler looks at the incoming handled flag: when an earlier handler (an application hook) has answered the request, the library's bookkeeping for this event is skipped")
+	}
+	r.Check(n >= 4, rule, "all packages", "After handlers", "-", sprintf("%d", n), sprintf("expected at least 4 library After handlers, found %d", n))
+}
+
+// supersededOnEveryRequest: a recovery request for an existing account always
+// issues: from the successful look-up, every completing path stores a fresh
+// selector (no "one was sent a moment ago" shortcut keeps the older token alive).
+func (c *Ctx) supersededOnEveryRequest(rule string) {
+	r := c.R
+	fn := c.P.FuncOpt("(*ab/recover.Recover).StartPost")
+	if fn == nil {
+		return
+	}
+	for _, lk := range CallsTo(fn, fnLoad) {
+		e := ErrResult(lk)
+		if e == nil {
+			continue
+		}
+		isPut := func(i ssa.Instruction) bool {
+			call, ok := i.(ssa.CallInstruction)
+			return ok && call.Common().IsInvoke() && call.Common().Method.Name() == "PutRecoverSelector"
+		}
+		q := PathQuery{From: lk.(ssa.Instruction), Cut: isPut, GoalP: c.nonErrorReturn, Prune: func(a, b *ssa.BasicBlock) bool {
+			f, ok := EdgeFact(a, b)
+			if !ok {
+				return false
+			}
+			rel := f.Rel()
+			// a Before handler took the request over
+			for _, fr := range Fires(fn) {
+				if fr.Before && fr.Handled != nil && f.SaysBool(fr.Handled, true) {
+					return true
+				}
+			}
+			if rel.X != e {
+				return false
+			}
+			// the look-up failed: unknown account (answered with the same success) or an error
+			return (rel.Op == token.NEQ && IsNilConst(rel.Y)) || (rel.Op == token.EQL && loadOfGlobal(rel.Y) != nil)
+		}}
+		if p := q.Find(); p != nil {
+			r.Bad(rule, FuncName(fn), "found ⇒ PutRecoverSelector(fresh)", posf(c, p[len(p)-1]), "a recovery request for an existing account can complete without issuing a new token: the older link is not superseded and stays valid for its whole period", c.P.DescribePath(p)...)
+		} else {
+			r.Ok(rule, FuncName(fn), "found ⇒ PutRecoverSelector(fresh)", posf(c, lk), "every completing path issues a new token")
+		}
+	}
+}
+
+// followRedirSites: which responses honour the client's return-target
+// parameter. The guard in front of it is known to be weak (C15 findings), so
+// the set of sites that set FollowRedirParam is part of the exposure: the
+// completions of an interactive login, and nothing else. A site added to it
+// (the OAuth2 callback, a recovery start, a logout) hands the client a new
+// place to plant a target.
+func (c *Ctx) followRedirSites(rule string) {
+	r := c.R
+	allowed := map[string]bool{
+		"(*ab/auth.Auth).LoginPost": true, "(*ab/otp.OTP).LoginPost": true,
+		"(*ab/otp/twofactor/totp2fa.TOTP).PostValidate":        true,
+		"(*ab/otp/twofactor/sms2fa.SMSValidator).validateCode": true,
+	}
+	n := 0
+	for _, fn := range c.P.Funcs {
+		if strings.HasSuffix(pkgOf(fn), "/mocks") {
+			continue
+		}
+		for _, call := range CallsTo(fn, fnRedirect) {
+			vals, ok := redirectOptField(Arg(call, 2), "FollowRedirParam")
+			if !ok {
+				continue
+			}
+			follows := false
+			for _, v := range vals {
+				if b, isC := ConstBool(v); !isC || b {
+					follows = true
+				}
+			}
+			if !follows {
+				continue
+			}
+			n++
+			// a login completion: the function issues the session
+			issues := false
+			for _, op := range c.StateOps(fn) {
+				if op.Op == "put" && op.Store == "session" && op.Const && op.Key == c.P.ConstString("", "SessionKey") {
+					issues = true
+				}
+			}
+			okSite := allowed[FuncName(fn)] || (issues && len(CallsTo(fn, fnFireBefore)) > 0 && pkgOf(fn) != "ab/oauth2" && pkgOf(fn) != "ab/recover" && pkgOf(fn) != "ab/register")
+			r.Check(okSite, rule, FuncName(fn), "FollowRedirParam", posf(c, call), "an interactive login completion", "this response honours the client-supplied return target (FollowRedirParam) although it is not one of the interactive login completions: the parameter is guarded only by the redirector's weak check, so every new site that follows it is a new way off-site")
+		}
+	}
+	r.Check(n >= 3, rule, "all packages", "sites following the return target", "-", sprintf("%d", n), sprintf("expected at least 3, found %d", n))
+}
+
 // refusalConfigMapped: every module that protects its routes with the
 // authentication middleware passes, as the refusal mode, what the
 // configuration says: Modules.ResponseOnUnauthed when it is set, otherwise a
